@@ -46,10 +46,33 @@ def frac_root_bits(p, k):
     return r & 0xFFFFFFFF
 
 
+_CONSTS = {}
+
+
+def set_consts(mod):
+    """module-level `const X = <numeric expression>` of the module under analysis"""
+    _CONSTS.clear()
+    for name, (kind, init, decl) in mod.vars.items():
+        if kind == "const" and init is not None:
+            v = num(init)
+            if v is not None:
+                _CONSTS[name] = v
+
+
 def num(e):
+    """integer value of a numeric literal, a module-level numeric constant, or +,-,* over those"""
+    if not isinstance(e, dict):
+        return None
     e = unparen(e)
-    if e.get("type") == "NumericLiteral":
+    t = e.get("type")
+    if t == "NumericLiteral":
         return int(e["value"])
+    if t == "Identifier" and e["value"] in _CONSTS:
+        return _CONSTS[e["value"]]
+    if t == "BinaryExpression" and e["operator"] in ("+", "-", "*"):
+        a, b = num(e["left"]), num(e["right"])
+        if a is not None and b is not None:
+            return {"+": a + b, "-": a - b, "*": a * b}[e["operator"]]
     return None
 
 
@@ -122,6 +145,8 @@ def run(cx, rep):
         "decided.")
     rep.trusted = ["swc AST", "FIPS 180-4 definitions re-derived in rules/c13.py"]
     mod = cx.ts(HASH_TS)
+    set_consts(mod)
+    set_consts(mod)   # second pass: constants defined from other constants
     # ---------------------------------------------------------------- C13.1
     rep.rule("C13.1", "SHA-256 constants and round-function shape (FIPS 180-4)")
     K = [frac_root_bits(p, 3) for p in primes(64)]
@@ -283,7 +308,11 @@ def run(cx, rep):
             rep.ob("C13.1", "feed-forward", okff, "each state word must be increased by its working variable in order a..h (found %s)" % ff, mod.loc(pc))
     # every call of the compression function is handed exactly one 64-byte block
     pc_name = [mn for mn, m in w.methods.items() if m["function"] is pc][0]
-    buf64 = {fn for fn, node in w.fields.items() if node.get("value") is not None and s(node["value"]) == "new Uint8Array(64)"}
+    buf64 = set()
+    for fn, node in w.fields.items():
+        v = unparen(node["value"]) if node.get("value") is not None else None
+        if v is not None and v.get("type") == "NewExpression" and s(v["callee"]) == "Uint8Array" and v.get("arguments") and num(v["arguments"][0]["expression"]) == 64:
+            buf64.add(fn)
     n_pc = 0
     for mname, m in w.methods.items():
         for n in walk(m["function"]):
@@ -294,7 +323,10 @@ def run(cx, rep):
                 mc = method_call(a)
                 if mc and mc[1] == "subarray" and len(mc[2]) == 2:
                     lo, hi = s(mc[2][0]), s(mc[2][1])
-                    ok = hi in ("(%s+64)" % lo, "(64+%s)" % lo) or (lo == "0" and hi == "64")
+                    h = unparen(mc[2][1])
+                    plus64 = h.get("type") == "BinaryExpression" and h["operator"] == "+" and (
+                        (s(h["left"]) == lo and num(h["right"]) == 64) or (s(h["right"]) == lo and num(h["left"]) == 64))
+                    ok = plus64 or (num(mc[2][0]) == 0 and num(mc[2][1]) == 64)
                 rep.ob("C13.1", "chunk-is-64-bytes/%s" % mname, ok,
                        "%s hands `%s` to the compression function: it must be the 64-byte block buffer or `x.subarray(p, p + 64)`; a shorter view is read past its end and the missing bytes are hashed as zeros" % (mname, s(a)),
                        mod.loc(n), sample={"caller": mname, "argument": s(a)})
@@ -310,7 +342,7 @@ def run(cx, rep):
     # padding / length
     dg = None
     for mname, m in w.methods.items():
-        if any(n["type"] == "NumericLiteral" and int(n["value"]) == 0x80 for n in walk(m["function"])):
+        if any((n["type"] == "NumericLiteral" and int(n["value"]) == 0x80) or (n["type"] == "Identifier" and _CONSTS.get(n["value"]) == 0x80) for n in walk(m["function"])):
             dg = m["function"]
     if dg is None:
         rep.ob("C13.1", "pad-byte", False, "no method appends the 0x80 padding byte", mod.loc(w.node))
@@ -320,7 +352,7 @@ def run(cx, rep):
         for n in walk(dg):
             if n["type"] == "IfStatement":
                 t = unparen(n["test"])
-                if t["type"] == "BinaryExpression" and num(t["right"]) is not None and "bufferLength" in s(t["left"]) or (t["type"] == "BinaryExpression" and num(t["right"]) in (55, 56, 57)):
+                if t["type"] == "BinaryExpression" and num(t["right"]) is not None and ("ufferLength" in s(t["left"]) or num(t["right"]) in (55, 56, 57)):
                     op, k = t["operator"], num(t["right"])
                     thr = (op, k)
         ok = thr in ((">", 56), (">=", 57))
@@ -360,6 +392,8 @@ def run(cx, rep):
                     for x in walk(mc[2][0]):
                         if x["type"] == "NumericLiteral":
                             bs.append(int(x["value"]))
+                        elif x["type"] == "Identifier" and x["value"] in _CONSTS:
+                            bs.append(_CONSTS[x["value"]])
             tagbytes[mname] = bs
     allb = [b for bs in tagbytes.values() for b in bs]
     rep.ob("C13.3", "writer/type-bytes-distinct", len(allb) == len(set(allb)) and all(tagbytes.values()),
